@@ -244,6 +244,24 @@ def r14_3(ctx):
             env_base[k.arg] = Iv.point(float(k.value.value))
         else:
             env_base.pop(k.arg, None)
+            # a solver attribute (`self.<name>`): the hull of the values it takes over every solver scenario
+            if isinstance(k.value, ast.Attribute) and isinstance(k.value.value, ast.Name) and k.value.value.id == "self":
+                from . import solvers, steps
+                dom = solvers.Domains(model)
+                vals = []
+                for sc in steps.scenarios(model, dom):
+                    try:
+                        v = solvers.solver_attr(model, sc.obj, k.value.attr)
+                    except Exception:
+                        vals = None
+                        break
+                    if isinstance(v, (Fraction, int, float)) and not isinstance(v, bool):
+                        vals.append(float(v))
+                    else:
+                        vals = None
+                        break
+                if vals:
+                    env_base[k.arg] = Iv(min(vals), max(vals))
     results = {}
     homogeneous = True
     for case, err_iv in (("rejected (err > 1)", Iv(1.0, INF, lo_open=True)), ("accepted (err <= 1)", Iv(0.0, 1.0, lo_open=True))):
